@@ -32,4 +32,15 @@ PROPS = {
              '(exhaustive over capacities per case). distinct = hash of the reference encoding; every case is non-trivial.',
         exhaustive=dict(quick=False, thorough=False),
         assumptions=['reference sizes from refosc.h', 'elements handed to rtosc_bundle are followed by >=4 zero bytes (API passes no element length)']),
+    'C08': dict(
+        level_text='Runtime monitoring against a reference model: generated element trees (0..8 elements per bundle, messages from the C01 generator or bundles, nesting depth 0..4, time tags incl. 0, 1, max) are built bottom-up with rtosc_bundle into exact-size heap buffers and compared bytewise with an independent bundle encoder; each result is decomposed recursively (rtosc_bundle_p, _elements, _fetch pointer and bytes, _size, _timetag, rtosc_message_length) under AddressSanitizer. subtree_serialize (append_bundle) is driven over a small port tree with random state and buffer capacities and compared with the reference bundle of the expected replies.',
+        level_note='Trusts refosc.h. Elements are handed over in their own buffer followed by 4 zero bytes because the API passes no element length. Held on the trees explored.',
+        technique='reference-model differential monitor under AddressSanitizer/UBSan',
+        stages=[dict(harness='c08', variant='asan', quick=5000, thorough=500000,
+                     need=['bundle.built', 'inspect.bundle', 'inspect.message', 'inspect.fetch', 'inspect.depth_3',
+                           'bundle.elements_0', 'bundle.elements_8', 'subtree.fits', 'subtree.too_small'])],
+        rule='case = element tree (7 of 8) or subtree_serialize state+capacity (1 of 8); distinct = hash of the produced bytes; '
+             'every case is non-trivial (>=1 bundle built and decomposed).',
+        exhaustive=dict(quick=False, thorough=False),
+        assumptions=['reference bundle encoder refosc.h', 'elements followed by >=4 zero bytes when passed to rtosc_bundle']),
 }
